@@ -162,3 +162,122 @@ Proof.
   intros Hij Hw. unfold nth_seq.
   apply seq_injective_window; [reflexivity | lia | lia].
 Qed.
+
+(* ---------- cleaner ticks before a message's deadline are harmless (C14, real-time arrival) ---------- *)
+
+(* [timely s ex last evs]: every cleaner tick of the history comes no later than [ex] after the
+   latest datagram of sequence number s received before it ([last]; no constraint before the
+   first one).  Other traffic, malformed datagrams and the fate of other messages are arbitrary. *)
+Fixpoint timely (s ex : N) (last : option N) (evs : list sev) : Prop :=
+  match evs with
+  | [] => True
+  | Recv t raw :: r => timely s ex (if is_mine s raw then Some t else last) r
+  | Expire t :: r => match last with Some l => t <= l + ex | None => True end /\ timely s ex last r
+  end.
+
+(* the same history without the ticks *)
+Fixpoint strip (evs : list sev) : list (N * list N) :=
+  match evs with
+  | [] => []
+  | Recv t raw :: r => (t, raw) :: strip r
+  | Expire _ :: r => strip r
+  end.
+
+Lemma expire_keeps t (bs : buffers) s :
+  (forall b, lookup s bs = Some b -> t <= r_exp b) -> lookup s (expire t bs) = lookup s bs.
+Proof.
+  unfold expire. induction bs as [|[k v] bs IH]; intros H; [reflexivity|].
+  cbn [filter lookup snd] in *. destruct (k =? s) eqn:E.
+  - assert (r_exp v <? t = false) as -> by (apply N.ltb_ge, H; reflexivity).
+    cbn [negb lookup]. now rewrite E.
+  - destruct (negb (r_exp v <? t)); cbn [lookup]; rewrite ?E; apply IH; exact H.
+Qed.
+
+Lemma outs_for_other s s' m : s' <> s -> outs_for s [Some (s', m)] = [].
+Proof. intros H. unfold outs_for. cbn. destruct (N.eqb_spec s' s); [congruence | reflexivity]. Qed.
+
+(* one datagram, two buffer tables that agree on s: they still agree, and say the same about s *)
+Lemma receive_agree ex t s (bs1 bs2 : buffers) raw : lookup s bs1 = lookup s bs2 ->
+  lookup s (fst (receive ex t bs1 raw)) = lookup s (fst (receive ex t bs2 raw)) /\
+  outs_for s [snd (receive ex t bs1 raw)] = outs_for s [snd (receive ex t bs2 raw)].
+Proof.
+  intros H. unfold receive. destruct (decode_dgram raw) as [d|]; [|split; [exact H | reflexivity]].
+  unfold receive_d. destruct (N.eq_dec (d_seq d) s) as [E|E].
+  - rewrite E, H.
+    repeat match goal with |- context [if ?c then _ else _] => destruct c end; cbn [fst snd];
+      rewrite ?lookup_insert_same, ?lookup_remove_same; split; reflexivity.
+  - repeat match goal with |- context [if ?c then _ else _] => destruct c end; cbn [fst snd];
+      rewrite ?lookup_insert_other, ?lookup_remove_other by congruence;
+      rewrite ?outs_for_other by exact E; split; solve [exact H | reflexivity].
+Qed.
+
+(* the deadline of s's buffer is always [ex] after s's latest datagram *)
+Definition armed (s ex : N) (bs : buffers) (last : option N) : Prop :=
+  forall b, lookup s bs = Some b -> exists l, last = Some l /\ r_exp b = l + ex.
+
+Lemma receive_armed ex t s (bs : buffers) raw last : armed s ex bs last ->
+  armed s ex (fst (receive ex t bs raw)) (if is_mine s raw then Some t else last).
+Proof.
+  intros HA. unfold receive, is_mine. destruct (decode_dgram raw) as [d|]; [|exact HA].
+  unfold receive_d. destruct (N.eqb_spec (d_seq d) s) as [E|E].
+  - rewrite E.
+    repeat match goal with |- context [if ?c then _ else _] => destruct c end; cbn [fst snd];
+      intros b; rewrite ?lookup_insert_same, ?lookup_remove_same; intros Hb; try discriminate;
+      injection Hb as <-; exists t; split; reflexivity.
+  - repeat match goal with |- context [if ?c then _ else _] => destruct c end; cbn [fst snd];
+      intros b; rewrite ?lookup_insert_other, ?lookup_remove_other by congruence; apply HA.
+Qed.
+
+Lemma timely_ticks_harmless_gen s ex evs : forall (bs1 bs2 : buffers) last,
+  lookup s bs1 = lookup s bs2 -> armed s ex bs1 last -> timely s ex last evs ->
+  outs_for s (snd (srun ex bs1 evs)) = outs_for s (snd (srun ex bs2 (recv_events (strip evs)))).
+Proof.
+  induction evs as [|e evs IH]; intros bs1 bs2 last HL HA HT; [reflexivity|].
+  destruct e as [t raw|t]; cbn [timely strip] in *.
+  - cbn [recv_events map srun snd fst sstep].
+    rewrite outs_for_cons, (outs_for_cons s (snd (receive ex t bs2 raw))).
+    destruct (receive_agree ex t s bs1 bs2 raw HL) as [HL' HO]. rewrite HO. f_equal.
+    apply (IH _ _ (if is_mine s raw then Some t else last)); [exact HL' | | exact HT].
+    now apply receive_armed.
+  - destruct HT as [Ht HT]. cbn [srun snd fst sstep]. rewrite outs_for_cons.
+    change (outs_for s [None]) with (@nil (list N)). cbn [app].
+    assert (K : lookup s (expire t bs1) = lookup s bs1).
+    { apply expire_keeps. intros b Hb. destruct (HA b Hb) as (l & -> & ->). exact Ht. }
+    apply (IH _ _ last); [now rewrite K | | exact HT].
+    intros b Hb. rewrite K in Hb. now apply HA.
+Qed.
+
+(* Whatever else happens, as long as every cleaner tick comes within [ex] of s's latest datagram,
+   what is handed up for s is what the history WITHOUT the ticks hands up for s ... *)
+Theorem timely_ticks_harmless s ex evs : timely s ex None evs ->
+  outs_for s (snd (srun ex [] evs)) = outs_for s (snd (srun ex [] (recv_events (strip evs)))).
+Proof.
+  intros HT. apply (timely_ticks_harmless_gen s ex evs [] [] None); [reflexivity | | exact HT].
+  intros b Hb. discriminate.
+Qed.
+
+(* ... hence, with [reassembly]: for every payload size, message and history of datagrams AND
+   cleaner ticks (any order, interleaving, other traffic, arrival times) in which each segment
+   occurs at most once and every tick comes within the expiry of the message's latest segment,
+   the message is handed up exactly once when all its segments are in, and nothing otherwise. *)
+Theorem reassembly_with_timely_ticks P ex s m ds :
+  0 < P -> s < 4294967296 -> split P s m = Some ds ->
+  forall evs : list sev, timely s ex None evs ->
+    NoDup (mine_raws s (strip evs)) ->
+    incl (mine_raws s (strip evs)) (map encode_dgram ds) ->
+    outs_for s (snd (srun ex [] evs)) =
+      if (length (mine_raws s (strip evs)) =? length ds)%nat then [m] else [].
+Proof.
+  intros HP Hs Hsplit evs HT Hnd Hincl. rewrite timely_ticks_harmless by exact HT.
+  now apply (reassembly P ex s m ds).
+Qed.
+
+(* the ticks the judge inserts (one at the time of each datagram, [timed_events]) are timely for s
+   whenever every gap between two datagrams of s is at most the expiry *)
+Example timely_example :
+  let ds := match split 2 7 [1;2;3;4;5] with Some ds => map encode_dgram ds | None => [] end in
+  let evs := [Expire 0; Recv 0 (nth 0 ds []); Expire 1200; Recv 1200 (encode_dgram (mkD 9 1 0 [42]));
+              Expire 1900; Recv 1900 (nth 2 ds []); Expire 3800; Recv 3800 (nth 1 ds [])] in
+  timely 7 2000 None evs /\ outs_for 7 (snd (srun 2000 [] evs)) = [[1;2;3;4;5]]
+  /\ outs_for 7 (snd (srun 1000 [] evs)) = [].
+Proof. cbn [timely]. vm_compute. repeat split; try reflexivity; try (intro H; discriminate H). Qed.
